@@ -314,7 +314,21 @@ def save_structure(ctx, R="R-C17-save-guard"):
             if len(pos) == 1 and pos[0][0][0] == want:
                 ctx.check(pos[0][0][1], R2, f, pos[0][1], "the %s test is the exact, case-sensitive suffix test numpy itself applies" % want,
                           "`%s` selects names that do not end with exactly '%s': " % (astq.text(pos[0][1].test)[:60], want) + WHY % want)
-            ctx.check(astq.is_name(c.args[0], fname) if c.args else False, R2, f, astq.enclosing_stmt(pm, c), "numpy's writer is given the file name unchanged",
+            def _named_target(a_):
+                if astq.is_name(a_, fname):
+                    return True
+                # a file object opened on exactly that name for binary writing (numpy adds no suffix to file objects)
+                if isinstance(a_, ast.Name):
+                    for w_ in astq.ancestors(pm, c):
+                        if isinstance(w_, ast.With):
+                            for it_ in w_.items:
+                                ce = it_.context_expr
+                                if (astq.is_name(it_.optional_vars, a_.id) and isinstance(ce, ast.Call) and astq.is_name(ce.func, "open") and ce.args
+                                        and astq.is_name(ce.args[0], fname)):
+                                    mode = ce.args[1] if len(ce.args) > 1 else astq.kw(ce, "mode")
+                                    return isinstance(mode, ast.Constant) and isinstance(mode.value, str) and "w" in mode.value and "b" in mode.value
+                return False
+            ctx.check(_named_target(c.args[0]) if c.args else False, R2, f, astq.enclosing_stmt(pm, c), "numpy's writer is given the file name unchanged",
                       "numpy's %s writer is given %s" % (kindw, astq.text(c.args[0])[:60] if c.args else None))
             if kindw == "npy":
                 ctx.check(len(c.args) == 2 and astq.eq_text(c.args[1], "self._stats"), R2, f, astq.enclosing_stmt(pm, c), "np.save stores the statistics matrix",
